@@ -635,6 +635,19 @@ func (ex *Exec) selectStmt(fr *Frame, st *State, x *ssa.Select) Val {
 		ex.refFacts(st, fv)
 		r.L = append(r.L, fv.L...)
 	}
+	// a receive from a closed channel is always ready
+	cl := st.get("C:closed", ArrS(IntS, BoolS))
+	for i, s := range x.States {
+		if s.Dir == types.RecvOnly {
+			ch := ex.val(fr, s.Chan).Term()
+			if !x.Blocking {
+				ex.assume(st, Implies(Select(cl, ch), Not(Eq(idx, BVI(-1, 64)))))
+			}
+			if n == 1 {
+				ex.assume(st, Implies(Select(cl, ch), Eq(idx, BVI(int64(i), 64))))
+			}
+		}
+	}
 	for _, s := range x.States {
 		if s.Dir == types.SendOnly {
 			v := ex.val(fr, s.Send)
@@ -653,5 +666,5 @@ func calleeName(c *ssa.CallCommon) string {
 	if f := c.StaticCallee(); f != nil {
 		return fnKey(f)
 	}
-	return c.Value.Name()
+	return sourceName(c.Value)
 }
